@@ -295,7 +295,7 @@ def run_vector(vec, emb, pool, eid, recv=None, arg=None):
         "out": buf.getvalue() != "", "arith": True, "exactfp": emb.dyadic,
         "rawwf": raw_wf(rettier) and raw_wf(recv),
         "validok": validate_agrees(rettier) and validate_agrees(recv),
-        "offgrid": 0, "emb": emb.name,
+        "offgrid": 0, "emb": emb.name, "pool": next((k for k, v in POOLS.items() if v is pool), "ascii"),
     }
     ev["offgrid"] = pj.offgrid
     return ev, ret
